@@ -493,6 +493,19 @@ func Explore(r *core.Run, o Options) {
 				}
 			}
 		}
+		// every ordered pair of symbols as one list (a patch that puts the caller's value into the working document, and a later
+		// patch of the same list that edits the working document in place, meet only here)
+		for _, n := range starts {
+			for a := range alphabet {
+				for b := range alphabet {
+					r.Eval(1)
+					if _, f := apply(n, []int{a, b}); f != nil {
+						report(n, []int{a, b}, f)
+					}
+				}
+			}
+			r.Class("pair-lists")
+		}
 		// lists of length 3 failing at the k-th patch
 		failing := names["json/fails-second"]
 		goodA, goodB := names["add-key/k1/v0"], names["add-aka/[0]"]
